@@ -22,7 +22,8 @@ RULE = ('random universes; per method a dense conformant call, every leaf slot (
         'member, XML attribute) x boundary values of its declaration (on / just inside / just outside every facet bound, null, absent, '
         'occurrence counts 0..max+2, lexically ill-formed text) x 6 protocol families; plus exhaustive sweeps of the 8-bit (thorough: 16-bit) '
         'integer types at 4 positions; non-trivial = a request that reached soft validation and got a verdict; distinct by '
-        '(protocol, position class, leaf type shape, value label, verdict).')
+        '(protocol, position class, leaf type shape, value label, verdict).'
+        ' Also: a facet matrix of ~45 leaf declarations at 5 positions, a three-level inheritance universe, repeated members with min_occurs 1..3, Double ranges open on one side, prefix-alternation patterns, mandatory tag bodies, public names differing from attribute names.')
 ASSUMPTIONS = [
     'reference validator vflib/refval.py implements DESIGN.md A.2; facets a carrier cannot express (explicit null or empty string in a query string, XML attributes outside XML) are skipped for that carrier only',
     'patterns come from a regex subset on which XSD and Python agree; total_digits/fraction_digits are not part of the statement',
